@@ -95,7 +95,7 @@ func checkC02(c *gramCase, b *gram.Built, r *vstat.Run) outcome {
 
 func TestC02(t *testing.T) {
 	runProp(t, "C02", c02Rule, func(t *rapid.T, r *vstat.Run) {
-		o := gram.GenOpts{MaxProds: 5, MaxDepth: 3, TrapPercent: 70, PosStyles: false, Profiles: true}
+		o := gram.GenOpts{MaxProds: 5, MaxDepth: 3, TrapPercent: 70, PosStyles: false, Profiles: true, Parseables: true}
 		g := gram.GenGrammar(t, o)
 		// bias the lookahead upwards: an attempt must be abandonable for a leak to show
 		g.Lookahead = rapid.SampledFrom([]int{1, 2, 3, 5, 5, 99999, 99999, -1}).Draw(t, "k2")
@@ -223,7 +223,7 @@ func checkC10(c *gramCase, b *gram.Built, r *vstat.Run) outcome {
 func TestC10(t *testing.T) {
 	runProp(t, "C10", c10Rule, func(t *rapid.T, r *vstat.Run) {
 		named := rapid.IntRange(0, 99).Draw(t, "named") < 15
-		o := gram.GenOpts{MaxProds: 4, MaxDepth: 4, TrapPercent: 20, NameElided: named, Profiles: true}
+		o := gram.GenOpts{MaxProds: 4, MaxDepth: 4, TrapPercent: 20, NameElided: named, Profiles: true, Parseables: true}
 		g := gram.GenGrammar(t, o)
 		b, msg := buildGrammar(g)
 		if msg != "" {
@@ -454,7 +454,7 @@ func checkC11(c *gramCase, b *gram.Built, r *vstat.Run) outcome {
 
 func TestC11(t *testing.T) {
 	runProp(t, "C11", c11Rule, func(t *rapid.T, r *vstat.Run) {
-		o := gram.GenOpts{MaxProds: 5, MaxDepth: 4, TrapPercent: 15, PosStyles: true, Profiles: true, NameElided: rapid.IntRange(0, 9).Draw(t, "named") == 0}
+		o := gram.GenOpts{MaxProds: 5, MaxDepth: 4, TrapPercent: 15, PosStyles: true, Profiles: true, Parseables: true, NameElided: rapid.IntRange(0, 9).Draw(t, "named") == 0}
 		g := gram.GenGrammar(t, o)
 		b, msg := buildGrammar(g)
 		if msg != "" {
@@ -531,6 +531,11 @@ func checkC13(c *gramCase, ps *c13Parsers, r *vstat.Run) outcome {
 	for i, b := range ps.bs {
 		i, b := i, b
 		if p := guard(func() { out[i].ast, out[i].err = b.P.ParseString("f", c.Input) }); p != "" {
+			for j := 0; j < i; j++ {
+				if out[j].err == nil {
+					return violationf("panic-at-larger-lookahead", "input %q parses with lookahead %d but panics with the larger lookahead %d: %s\n%s", c.Input, c13Ladder[j], c13Ladder[i], p, c.G.String())
+				}
+			}
 			if r != nil {
 				r.Count("parse_panicked_left_to_C06")
 			}
@@ -579,7 +584,7 @@ func checkC13(c *gramCase, ps *c13Parsers, r *vstat.Run) outcome {
 
 func TestC13(t *testing.T) {
 	runProp(t, "C13", c13Rule, func(t *rapid.T, r *vstat.Run) {
-		o := gram.GenOpts{MaxProds: 4, MaxDepth: 4, TrapPercent: 30, NoLookNeg: true, PosStyles: true, Profiles: true}
+		o := gram.GenOpts{MaxProds: 4, MaxDepth: 4, TrapPercent: 30, NoLookNeg: true, PosStyles: true, Profiles: true, Parseables: true}
 		g := gram.GenGrammar(t, o)
 		ps, msg := buildLadder(g)
 		if msg != "" {
